@@ -52,19 +52,22 @@ def gen_history(rng, tier):
     nparts = rng.choice([1, 1, 2, 3])
     h = {'nparts': nparts, 'max_batch': rng.choice([1, 2, 3, 10]), 'reset': rng.choice(['earliest', 'earliest', 'latest']),
          'keys': rng.random() < 0.3, 'pre': [rng.randrange(0, 7) for _ in range(nparts)],
+         # offsets without a message (transaction markers, compacted records): always directly followed by a real message
+         'hole_rate': rng.choice([0, 0, 0.25, 0.5]),
          'produce': [], 'add_partition_at': None, 'npartitions_arg': rng.random() < 0.5,
          'sink': {'kind': rng.choice(['sync', 'coro', 'coro', 'future']), 'svc': [rng.choice([0, 0.5, 1.5, 3.0]) for _ in range(3)]},
          'map': rng.random() < 0.5, 'committed_failures': rng.choice([0, 0, 0, 1, 2])}
     t = 0.0
     for _ in range(rng.randrange(0, 15 if tier == 'thorough' else 10)):
         t += rng.choice([0, 0, 0.25, 0.5, 1.0, 1.0, 2.5])
-        h['produce'].append([round(t, 3), rng.randrange(nparts)])
+        h['produce'].append([round(t, 3), rng.randrange(nparts), int(rng.random() < h['hole_rate'])])
     if rng.random() < 0.25:
         h['add_partition_at'] = round(rng.choice([0.5, 1.5, 3.0]), 2)
         h['npartitions_arg'] = False
         for _ in range(rng.randrange(1, 4)):
-            h['produce'].append([h['add_partition_at'] + rng.choice([0.1, 1.0, 2.0]), nparts])
+            h['produce'].append([h['add_partition_at'] + rng.choice([0.1, 1.0, 2.0]), nparts, int(rng.random() < h['hole_rate'])])
         h['produce'].sort()
+    h['pre_holes'] = [[int(rng.random() < h['hole_rate']) for _ in range(n)] for n in h['pre']]
     return h
 
 
@@ -101,6 +104,8 @@ def run_incarnation(broker, h, crash_at=None, preload=False):
             kcount = {'n': 0}
 
             def part_of(batch):
+                if not batch:
+                    return None         # a range made of message-less offsets only
                 v = batch[0]['value'] if isinstance(batch[0], dict) else batch[0]
                 return int(v.split(b'-')[0][1:])
 
@@ -112,8 +117,8 @@ def run_incarnation(broker, h, crash_at=None, preload=False):
                     log.add('START', 'sk', vals(batch))
                     log.add('END', 'sk', vals(batch))
             else:
-                async def body(batch, k, prev):
-                    if prev is not None:
+                async def body(batch, k, prevs):
+                    for prev in prevs:
                         await prev.wait()
                     d = svc[k % len(svc)]
                     if d:
@@ -125,13 +130,20 @@ def run_incarnation(broker, h, crash_at=None, preload=False):
                     kcount['n'] += 1
                     log.add('START', 'sk', vals(batch))
                     p = part_of(batch)
-                    prev = tail.get(p)
                     done = asyncio.Event()
-                    tail[p] = done
+                    if p is not None:
+                        prevs = [x for x in (tail.get(p), tail.get('empty')) if x is not None]
+                        tail[p] = done
+                    else:
+                        # a batch without messages does not tell its partition: it completes after everything handed over
+                        # before it, and everything handed over later completes after it
+                        prevs = list(tail.values())
+                        tail.clear()
+                        tail['empty'] = done
 
                     async def run():
                         try:
-                            await body(batch, k, prev)
+                            await body(batch, k, prevs)
                         finally:
                             done.set()
                     if kind == 'coro':
@@ -140,12 +152,12 @@ def run_incarnation(broker, h, crash_at=None, preload=False):
             last.sink(sink)
             t0 = loop.time()
             if not preload:
-                for t, p in h['produce']:
-                    loop.call_later(t, _produce, broker, p, h['keys'])
+                for t, p, *hole in h['produce']:
+                    loop.call_later(t, _produce, broker, p, h['keys'], bool(hole and hole[0]))
                 if h['add_partition_at'] is not None:
                     loop.call_later(h['add_partition_at'], broker.add_partition)
             node.start()
-            horizon = (h['produce'][-1][0] if h['produce'] and not preload else 0) + 6 + 4 * (sum(h['pre']) + len(h['produce'])) * (max(svc) + 0.1)
+            horizon = (h['produce'][-1][0] if h['produce'] and not preload else 0) + 6 + 4 * (sum(h['pre']) + len(h['produce'])) * (max(svc) + 0.1) * (2 if h.get('hole_rate') else 1)
             crashed = False
             if crash_at is None:
                 reason = loop.drive(until_vt=horizon, max_iters=400000)
@@ -164,12 +176,16 @@ def run_incarnation(broker, h, crash_at=None, preload=False):
     return out
 
 
-def _produce(broker, p, keys):
+def _produce(broker, p, keys, hole=False):
     if p < len(broker.logs):
-        broker.produce(p, key=(b'k' if keys else None))
+        broker.produce(p, key=(b'k' if keys else None), hole_before=hole)
 
 
-def check_ranges(h, inc, broker_sizes_at, add, counters, group_start):
+def is_hole(broker, p, o):
+    return o < len(broker.logs[p]) and broker.logs[p][o] is None
+
+
+def check_ranges(h, inc, broker, add, counters, group_start):
     log = inc['log']
     per = {}
     wm = {}
@@ -210,7 +226,7 @@ def check_ranges(h, inc, broker_sizes_at, add, counters, group_start):
     # batches handed on: exactly the broker's messages low..high, and below the watermark at that moment
     produced = {}
     for e in log.ev:
-        if e[2] == 'KAFKA' and e[4] == 'produce':
+        if e[2] == 'KAFKA' and e[4] in ('produce', 'hole'):
             produced[(e[5], e[6])] = e[0]
     for p, rs in per.items():
         for low, high, e in rs:
@@ -222,7 +238,11 @@ def check_ranges(h, inc, broker_sizes_at, add, counters, group_start):
     fetch_in = [e for e in log.ev if e[2] == 'IN' and e[3] == 'fetch']
     for i_e, o_e in zip(fetch_in, fetch_out):
         _, topic, p, keys, low, high = i_e[5]
-        exp = [('p%d-o%d' % (p, o)).encode() for o in range(low, high + 1)]
+        exp = [('p%d-o%d' % (p, o)).encode() for o in range(low, high + 1) if not is_hole(broker, p, o)]
+        if len(exp) < high - low + 1:
+            counters['ranges_with_message_less_offsets'] = counters.get('ranges_with_message_less_offsets', 0) + 1
+            if is_hole(broker, p, high):
+                counters['ranges_ending_at_message_less_offset'] = counters.get('ranges_ending_at_message_less_offset', 0) + 1
         got = [(m['value'] if isinstance(m, dict) else m) for m in o_e[4]]
         counters['batch_content_checks'] = counters.get('batch_content_checks', 0) + 1
         if got != exp:
@@ -247,8 +267,8 @@ def check_history(h, crash_at, counters, sets):
             viols.append({'key': key, 'what': what, 'case': case})
     broker = kafka_fake.Broker(TOPIC, h['nparts'])
     for p, n in enumerate(h['pre']):
-        for _ in range(n):
-            broker.produce(p, key=(b'k' if h['keys'] else None))
+        for j in range(n):
+            broker.produce(p, key=(b'k' if h['keys'] else None), hole_before=bool(h.get('pre_holes') and h['pre_holes'][p][j]))
     incs = []
     group_start = {}
     completed = set()          # (partition, offset) completely processed, in global order across incarnations
@@ -266,7 +286,7 @@ def check_history(h, crash_at, counters, sets):
             return None, None
         for name, msg, exc in inc['errors']:
             add('C09:loop-exception:%s' % (type(exc).__name__ if exc is not None else 'log'), '%s %s %r' % (name, msg[:200], exc))
-        per = check_ranges(h, inc, None, add, counters, group_start)
+        per = check_ranges(h, inc, broker, add, counters, group_start)
         for p, rs in per.items():
             n_batches += len(rs)
             for low, high, e in rs:
@@ -284,7 +304,7 @@ def check_history(h, crash_at, counters, sets):
                 if (p, o) not in handed:
                     add('C09:commit-of-offset-never-handed-out', 'partition %d: commit(%d) but no range ends at %d' % (p, o, o - 1))
                 start = group_start.get(p, 0)
-                missing = [x for x in range(start, o) if (p, x) not in completed]
+                missing = [x for x in range(start, o) if (p, x) not in completed and not is_hole(broker, p, x)]
                 if missing:
                     add('C09:commit-before-processing-completed', 'incarnation %d, t=%s: commit(partition %d, offset %d) while '
                         'messages %s of that partition have not been completely processed' % (k, e[1], p, o, missing[:8]))
@@ -314,6 +334,8 @@ def check_history(h, crash_at, counters, sets):
                     pass
                 for o in range(start, len(broker.logs[p])):
                     counters['messages_accounted_after_restart'] = counters.get('messages_accounted_after_restart', 0) + 1
+                    if is_hole(broker, p, o):
+                        continue
                     if (p, o) not in completed1 and (p, o) not in delivered2:
                         if h['reset'] != 'earliest' and incs[0]['committed_at_start'].get(p, -1001) == -1001 and \
                                 incs[1]['committed_at_start'].get(p, -1001) == -1001:
